@@ -468,7 +468,10 @@ void instance_t::clock_in_directive(char * line, bool capitalized)
 {
   string datetime(line, 2, 19);
 
-  char * p   = skip_ws(line + 22);
+  // a line that ends right after the timestamp names no account: do not look
+  // past its terminator
+  std::size_t len = std::strlen(line);
+  char * p   = skip_ws(line + (len > 22 ? 22 : len));
   char * n   = next_element(p, true);
   char * end = n ? next_element(n, true) : NULL;
 
@@ -497,7 +500,10 @@ void instance_t::clock_out_directive(char * line, bool capitalized)
 {
   string datetime(line, 2, 19);
 
-  char * p = skip_ws(line + 22);
+  // a line that ends right after the timestamp names no account: do not look
+  // past its terminator
+  std::size_t len = std::strlen(line);
+  char * p = skip_ws(line + (len > 22 ? 22 : len));
   char * n = next_element(p, true);
   char * end = n ? next_element(n, true) : NULL;
 
@@ -515,7 +521,7 @@ void instance_t::clock_out_directive(char * line, bool capitalized)
   position.sequence = context.sequence++;
 
   time_xact_t event(position, parse_datetime(datetime), capitalized,
-                    p ? top_account()->find_account(p) : NULL,
+                    (p && *p) ? top_account()->find_account(p) : NULL,
                     n ? n : "",
                     end ? end : "");
 
